@@ -9,11 +9,18 @@
        multi-tick history with callbacks and interrupts at any speed: after every tick, and in every
        state the master reaches, each wired input port holds the value its source reported last;
        every update is handed exactly those inputs ([C03_sim_update_latest], [C03_sim_run_latest]).
-   PARTIAL: the same through system-simulation boundaries (external / expose pseudo components) is
-   not proved; it is decided per run by the Coq-defined oracle [latest_ok] (Oracle/SimOracle.v,
-   code 81) on the flattened wiring of every generated nesting.  Property theorems only. *)
-From TV Require Import Base Model.Wiring Model.Ticker Model.Component Model.Sim Proofs.WiringP Proofs.TickerP Proofs.FlattenP
-  Proofs.SimP Proofs.LatestP.
+   (5) through the boundary of a system simulation ([C03_through_system_boundary]): for a top level
+       of devices and one system simulation of devices, in every state a run of the master reaches
+       each RESOLVED wire -- a top-level wire, a wire into the system composed with the wire from
+       its external port, a wire to an exposed port composed with the wire out of the system, an
+       inner wire ([C03_resolved_wiring]) -- carries the latest report of its source device.
+   PARTIAL: (5) is proved for one level of nesting without interrupts; deeper nestings, sibling
+   systems and interrupts are decided per run by the Coq-defined oracle [latest_ok]
+   (Oracle/SimOracle.v, code 81) on the flattened wiring of every generated nesting.
+   Property theorems only. *)
+From TV Require Import Base Model.Wiring Model.Ticker Model.Component Model.Sim Model.SimTime Model.Inline
+  Proofs.WiringP Proofs.TickerP Proofs.FlattenP Proofs.SimP Proofs.LatestP Proofs.EqvP Proofs.InlineP Proofs.InlineLoopP
+  Oracle.SimCheck Proofs.InlineScopeP Proofs.InlineLatestP.
 Open Scope Z_scope.
 
 Theorem C03_route_exact : forall (conns : list conn) src (ch : list (port * Z)) ic ip v,
@@ -79,6 +86,49 @@ Theorem C03_sim_run_latest : forall cfg devf num den fuel steps initial stim t_e
   flat_stim stim ->
   LATEST (l_conns (level_of cfg top)) (m_s (simulate_full cfg devf num den fuel steps initial [] stim t_end)).
 Proof. intros cfg devf num den fuel steps initial stim t_end Hwf Hdev. apply simulate_latest; assumption. Qed.
+
+(* the wiring seen through the boundary of the system simulation c (inner level lvc) *)
+Theorem C03_resolved_wiring : forall cfg c lvc u p d q,
+  In (u, p, d, q) (l_conns (level_of (inline cfg c lvc) top)) <->
+  (In (u, p, d, q) (l_conns (level_of cfg top)) /\ u <> c /\ d <> c) \/
+  (exists q0, In (u, p, c, q0) (l_conns (level_of cfg top)) /\ In (ext_id, q0, d, q) (l_conns (level_of cfg lvc))) \/
+  (exists o, In (u, p, exp_id, o) (l_conns (level_of cfg lvc)) /\ In (c, o, d, q) (l_conns (level_of cfg top))) \/
+  (In (u, p, d, q) (l_conns (level_of cfg lvc)) /\ u <> ext_id /\ d <> exp_id).
+Proof.
+  intros cfg c lvc u p d q. rewrite inline_top_conns, in_Cf, in_conns_A, in_conns_B, in_conns_C, in_conns_D. reflexivity.
+Qed.
+
+(* every state the master reaches when it runs the NESTED configuration has every resolved wire
+   carrying the latest report of its source: a device inside the system sees the latest value of
+   the outer device that feeds the system's input port, and an outer device the latest value of the
+   inner device behind the system's output port *)
+Theorem C03_through_system_boundary : forall cfg c lvc pre inn post (devf : devfun) f n initial horizon,
+  shape_of cfg = Some (c, lvc, pre, inn, post) ->
+  flat_wfb (level_of (inline cfg c lvc) top) = true ->
+  (forall d k t i, NoDup (keys (fst (devf d k t i)))) ->
+  (forall d k t i i', NoDup (keys i) -> NoDup (keys i') -> eqv i i' -> devf d k t i = devf d k t i') ->
+  let s := fst (fst (sim_run cfg devf n (S f) initial horizon)) in
+  forall u p d q, In (u, p, d, q) (l_conns (level_of (inline cfg c lvc) top)) ->
+  forall v, lookup p (d_last (dcs s u)) = Some v -> lookup q (d_inputs (dcs s d)) = Some v.
+Proof.
+  intros cfg c lvc pre inn post devf f n initial horizon Hs Hwf Hnd Hext s u p d q Hk.
+  rewrite inline_top_conns in Hk.
+  exact (nested_latest cfg c lvc pre inn post devf f n initial horizon (shape_of_sound _ _ _ _ _ _ Hs)
+           (flat_wfb_sound _ Hwf) Hnd Hext u p d q Hk).
+Qed.
+
+(* the premises hold somewhere, with values flowing in both directions through the boundary *)
+Example C03_boundary_example :
+  let cfg := [(1%positive, {| l_order := [(3%positive, KDev); (4%positive, KSys 2%positive); (8%positive, KDev)];
+                              l_conns := [(3, 1, 4, 1); (4, 1, 8, 1)]%positive |});
+              (2%positive, {| l_order := [(5%positive, KDev)]; l_conns := [(1, 1, 5, 1); (5, 1, 2, 1)]%positive |})] in
+  let tab : dev_table := [(3%positive, (11, 300, 1)); (5%positive, (12, 700, 0)); (8%positive, (14, 400, 0))] in
+  shape_of cfg = Some (4%positive, 2%positive, [3%positive], [5%positive], [8%positive]) /\
+  flat_wfb (level_of (inline cfg 4%positive 2%positive) top) = true /\
+  l_conns (level_of (inline cfg 4%positive 2%positive) top) = [(3, 1, 5, 1); (5, 1, 8, 1)]%positive /\
+  let s := fst (fst (sim_run cfg (table_dev tab) 10 8 0 100000)) in
+  (lookup 1%positive (d_last (dcs s 3%positive)) <> None /\ lookup 1%positive (d_last (dcs s 5%positive)) <> None).
+Proof. vm_compute. repeat split; discriminate. Qed.
 
 Example C03_example :
   map fst (run_dc dc_init [([(1%positive, 5)], []); ([(2%positive, 7)], []); ([(1%positive, 6)], [])])
